@@ -17,6 +17,8 @@ type Mutant struct {
 	File     string `json:"file"`
 	Old      string `json:"old"`
 	New      string `json:"new"`
+	// More: further edits of the same mutant (a change that needs two cooperating sites)
+	More []Mutant `json:"more,omitempty"`
 }
 
 func applyMutant(m Mutant) (map[string][]byte, error) {
@@ -28,7 +30,21 @@ func applyMutant(m Mutant) (map[string][]byte, error) {
 	if !strings.Contains(string(b), m.Old) {
 		return nil, fmt.Errorf("mutant %s: source text not found in %s (corpus out of date)", m.ID, m.File)
 	}
-	return map[string][]byte{path: []byte(strings.Replace(string(b), m.Old, m.New, 1))}, nil
+	ov := map[string][]byte{path: []byte(strings.Replace(string(b), m.Old, m.New, 1))}
+	for _, x := range m.More {
+		xp := filepath.Join(repoDir(), x.File)
+		cur, ok := ov[xp]
+		if !ok {
+			if cur, err = os.ReadFile(xp); err != nil {
+				return nil, err
+			}
+		}
+		if !strings.Contains(string(cur), x.Old) {
+			return nil, fmt.Errorf("mutant %s: source text not found in %s (corpus out of date)", m.ID, x.File)
+		}
+		ov[xp] = []byte(strings.Replace(string(cur), x.Old, x.New, 1))
+	}
+	return ov, nil
 }
 
 // runMutants applies each mutant in memory (go/packages overlay; /repo is never written) and
